@@ -247,6 +247,9 @@ def failing_variants(rng: random.Random, name: str, text: str) -> List[Tuple[str
 RECURSION_BOMB = "Table t {\n  id int [default: `x`]\n  indexes {\n    `" + "(" * 10 + "`\n  }\n}\n"
 
 
+TOUR = '// project comment before\nProject "tour" {\n  // inside project\n  database_type: \'PostgreSQL\'\n  Note: \'project note\'\n}\n\n// enum comment before\nEnum s1."kind" {\n  // item comment before\n  "a" [note: \'item note\'] // item comment after settings\n  "b" // item comment after\n  "c"\n}\n\n// table comment before\nTable s1.things as T [headercolor: #abc, note: \'settings note\'] {\n  // column comment before\n  id int pk unique // deprecated constraints, comment after\n  "kind" s1.kind [not null, default: \'a\'] // after settings\n  // second comment before\n  // continued\n  n decimal(10, 2) [default: 1.5, note: \'n note\']\n  flag bool [default: true]\n  t varchar(255) [default: `lower(\'X\')`, unique]\n  parent_id int [ref: > s1.things.id] // inline ref comment\n\n  indexes {\n    // index comment before\n    (id, n) [name: \'both\', type: btree] // index comment after\n    `n*2` [unique, note: \'expr idx\'] \n    t [pk]\n    // trailing comment in indexes\n  }\n  // comment before note\n  Note {\n    \'\'\'\n      multi\n        line\n    \'\'\'\n  }\n}\n\nTable other {\n  id int [pk, increment]\n  thing_id int\n  thing_n decimal\n}\n\n// ref comment before\nRef named_ref {\n  other.thing_id > s1.things.id [update: cascade, delete: set null] // ref comment after\n}\n\nRef: other.(thing_id, thing_n) - T.(id, n)\n\nTableGroup "grp one" [color: #123456, note: \'g note\'] {\n  // group item comment\n  s1.things\n  other\n  Note: \'inner group note\'\n}\n\nNote sticky_a {\n  \'one line\'\n}\n/* block comment\n   spanning lines */\n'
+
+
 def build_corpus(seed: int, n_templates: int, max_bytes: int) -> List[Dict[str, Any]]:
     """Deterministic in (seed, parameters, files under the tree under test)."""
     rng = core.stream(core.run_seed(seed, "corpus", 0), "corpus")
@@ -289,6 +292,11 @@ def build_corpus(seed: int, n_templates: int, max_bytes: int) -> List[Dict[str, 
     # (observation outside the claimed properties: a note consisting of blanks only makes remove_indentation
     # raise ValueError('min() iterable argument is empty') - C08's business; kept as a failing document)
     docs.append(("blank-note", "Table w {\n  a int\n  Note: '   '\n}\n"))
+    # a hand-written tour through every grammar feature (comments before/after every kind of element, the
+    # deprecated column constraints, table settings, named and composite references, group notes, ...): the
+    # coverage measurement of 10.6 showed which parse actions the seeded templates never reached
+    docs.insert(len([d for d in docs if d[0].startswith("repo:")]), ("tmpl-tour", TOUR))
+    docs.append(("tour-dup-in-group", TOUR.replace("  s1.things\n  other\n", "  s1.things\n  other\n  T\n")))
     docs.append(("m2m-twice", "Table authors {\n  id int [pk]\n  alt_id int\n}\n\nTable books {\n  id int [pk]\n  alt_id int\n}\n\n"
                  "Ref: authors.id <> books.id\n\nRef: authors.alt_id <> books.alt_id\n\nRef: books.id <> authors.alt_id\n"))
     docs.append(("empty", ""))
